@@ -79,4 +79,13 @@ fn main() {
     case!(d_poll_opt, Poll::<Option<Tok>>::Pending, "P");
     case!(d_poll_opt, Poll::Ready(None::<Tok>), "R(N)");
     case!(d_poll_opt, Poll::Ready(Some(t(1))), "R(S(L1))");
+    case!(d_res_or, Ok::<Option<Tok>, Result<Tok, Tok>>(None), "O(N)");
+    case!(d_res_or, Ok::<Option<Tok>, Result<Tok, Tok>>(Some(t(1))), "O(S(L1))");
+    case!(d_res_or, Err::<Option<Tok>, Result<Tok, Tok>>(Ok(t(2))), "E(O(L2))");
+    case!(d_res_or, Err::<Option<Tok>, Result<Tok, Tok>>(Err(t(3))), "E(E(L3))");
+    case!(d_poll_res, Poll::<Result<Tok, Tok>>::Pending, "P");
+    case!(d_poll_res, Poll::Ready(Ok::<Tok, Tok>(t(1))), "R(O(L1))");
+    case!(d_poll_res, Poll::Ready(Err::<Tok, Tok>(t(2))), "R(E(L2))");
+    case!(d_opt_vec_res, None::<Vec<Result<Tok, Tok>>>, "N");
+    case!(d_opt_vec_res, Some(vec![Ok::<Tok, Tok>(t(1)), Err(t(2)), Ok(t(3))]), "S(V[O(L1),E(L2),O(L3)])");
 }
